@@ -1,15 +1,316 @@
 package main
 
-// Threads for C09 (vPar). Filled in later; sequential runs only use the
-// no-op hooks below.
+// Interpreted threads for C09 (vPar): sequentialised exploration with schedule
+// points at lock acquisitions (which runnable thread proceeds is a forked
+// decision) and a vector-clock happens-before race detector over every heap
+// cell and map. Data-race freedom is what makes lock-granularity scheduling
+// exhaustive for the behaviours of the program (DRF => sequentially consistent,
+// and code between synchronisation points that touches no shared location
+// commutes with the other threads).
 
-type threadState struct{}
+import (
+	"fmt"
 
-func (ex *Exec) noteAccess(p *Value, write bool) {}
-func (ex *Exec) noteMap(m *Map, write bool)     {}
-func (ex *Exec) noteCell(v Value)               {}
+	"golang.org/x/tools/go/ssa"
+)
 
-func (t *threadState) lock(ex *Exec, p *Value)   { panic(unsupported("threads")) }
-func (t *threadState) unlock(ex *Exec, p *Value) { panic(unsupported("threads")) }
+const (
+	tNew = iota
+	tWantLock
+	tRunning
+	tDone
+)
 
-func (ex *Exec) runThreads(caller *frame, fs []Value) { panic(unsupported("vPar not implemented yet")) }
+type thread struct {
+	id       int
+	fn       Value
+	state    int
+	want     *Value
+	wantRead bool
+	resume   chan struct{}
+	vc       []int
+	// per-thread interpreter bookkeeping swapped in while it runs
+	depth     int
+	callStack []*ssa.Function
+}
+
+type lockState struct {
+	holder  int // -1 free
+	readers map[int]bool
+	vcW     []int
+	vcR     []int
+}
+
+type cellMeta struct {
+	wTid, wClk int
+	reads      map[int]int
+}
+
+type yieldMsg struct {
+	pan interface{}
+}
+
+type threadKilled struct{}
+
+type threadState struct {
+	threads []*thread
+	cur     *thread
+	yield   chan yieldMsg
+	kill    chan struct{}
+	locks   map[*Value]*lockState
+	cells   map[*Value]*cellMeta
+	maps    map[*Map]*cellMeta
+	step    int
+}
+
+func (ts *threadState) lockOf(p *Value) *lockState {
+	l := ts.locks[p]
+	if l == nil {
+		l = &lockState{holder: -1, readers: map[int]bool{}, vcW: make([]int, len(ts.threads)), vcR: make([]int, len(ts.threads))}
+		ts.locks[p] = l
+	}
+	return l
+}
+
+func joinVC(a, b []int) {
+	for i := range a {
+		if b[i] > a[i] {
+			a[i] = b[i]
+		}
+	}
+}
+
+func (ts *threadState) available(t *thread) bool {
+	l := ts.lockOf(t.want)
+	if t.wantRead {
+		return l.holder == -1
+	}
+	return l.holder == -1 && len(l.readers) == 0
+}
+
+// runThreads implements vPar.
+func (ex *Exec) runThreads(caller *frame, fs []Value) {
+	if ex.threads != nil {
+		panic(unsupported("nested vPar"))
+	}
+	ex.flush()
+	ts := &threadState{yield: make(chan yieldMsg), kill: make(chan struct{}), locks: map[*Value]*lockState{},
+		cells: map[*Value]*cellMeta{}, maps: map[*Map]*cellMeta{}}
+	for i, f := range fs {
+		t := &thread{id: i, fn: f, resume: make(chan struct{}), vc: make([]int, len(fs))}
+		t.vc[i] = 1
+		ts.threads = append(ts.threads, t)
+	}
+	ex.threads = ts
+	ex.usedThreads = true
+	mainDepth, mainStack := ex.depth, ex.callStack
+	killed := false
+	killAll := func() {
+		if !killed {
+			killed = true
+			close(ts.kill)
+		}
+	}
+	defer func() {
+		killAll()
+		ex.threads = nil
+		ex.depth, ex.callStack = mainDepth, mainStack
+	}()
+	for {
+		var enabled []*thread
+		alive := 0
+		for _, t := range ts.threads {
+			switch t.state {
+			case tNew:
+				enabled = append(enabled, t)
+				alive++
+			case tWantLock:
+				alive++
+				if ts.available(t) {
+					enabled = append(enabled, t)
+				}
+			}
+		}
+		if alive == 0 {
+			break
+		}
+		ts.cur = nil
+		ex.depth, ex.callStack = mainDepth, mainStack
+		if len(enabled) == 0 {
+			ex.fail("deadlock", "deadlock: every live thread waits for a lock that is held", "")
+		}
+		t := enabled[ex.choice(len(enabled))]
+		ts.step++
+		ts.cur = t
+		ex.depth, ex.callStack = t.depth, t.callStack
+		if t.state == tNew {
+			t.state = tRunning
+			go ts.runThread(ex, caller, t)
+		} else {
+			l := ts.lockOf(t.want)
+			if t.wantRead {
+				l.readers[t.id] = true
+				joinVC(t.vc, l.vcW)
+			} else {
+				l.holder = t.id
+				joinVC(t.vc, l.vcW)
+				joinVC(t.vc, l.vcR)
+			}
+			t.state = tRunning
+			t.resume <- struct{}{}
+		}
+		msg := <-ts.yield
+		t.depth, t.callStack = ex.depth, ex.callStack
+		if msg.pan != nil {
+			killAll()
+			ts.cur = nil
+			ex.depth, ex.callStack = mainDepth, mainStack
+			panic(msg.pan)
+		}
+	}
+	ts.cur = nil
+}
+
+func (ts *threadState) runThread(ex *Exec, caller *frame, t *thread) {
+	defer func() {
+		r := recover()
+		if _, ok := r.(threadKilled); ok {
+			return
+		}
+		t.state = tDone
+		select {
+		case ts.yield <- yieldMsg{pan: r}:
+		case <-ts.kill:
+		}
+	}()
+	ex.call(nil, t.fn, nil)
+}
+
+// park hands the baton back to the scheduler and waits to be resumed.
+func (ts *threadState) park(t *thread) {
+	select {
+	case ts.yield <- yieldMsg{}:
+	case <-ts.kill:
+		panic(threadKilled{})
+	}
+	select {
+	case <-t.resume:
+	case <-ts.kill:
+		panic(threadKilled{})
+	}
+}
+
+func (ts *threadState) lock(ex *Exec, p *Value)  { ts.acquire(ex, p, false) }
+func (ts *threadState) rlock(ex *Exec, p *Value) { ts.acquire(ex, p, true) }
+
+func (ts *threadState) acquire(ex *Exec, p *Value, read bool) {
+	t := ts.cur
+	if t == nil {
+		panic(unsupported("lock operation on the scheduler thread during vPar"))
+	}
+	ex.flush()
+	t.want, t.wantRead, t.state = p, read, tWantLock
+	ts.park(t)
+}
+
+func (ts *threadState) unlock(ex *Exec, p *Value) {
+	t := ts.cur
+	l := ts.lockOf(p)
+	if t == nil || l.holder != t.id {
+		ex.fail("panic", "sync: unlock of unlocked mutex", "")
+	}
+	copy(l.vcW, t.vc)
+	for i := range l.vcR {
+		l.vcR[i] = 0
+	}
+	l.holder = -1
+	t.vc[t.id]++
+}
+
+func (ts *threadState) runlock(ex *Exec, p *Value) {
+	t := ts.cur
+	l := ts.lockOf(p)
+	if t == nil || !l.readers[t.id] {
+		ex.fail("panic", "sync: RUnlock of unlocked RWMutex", "")
+	}
+	joinVC(l.vcR, t.vc)
+	delete(l.readers, t.id)
+	t.vc[t.id]++
+}
+
+func (ex *Exec) raceCheck(m *cellMeta, write bool, what string) {
+	t := ex.threads.cur
+	if t == nil {
+		return
+	}
+	if m.wTid >= 0 && m.wTid != t.id && m.wClk > t.vc[m.wTid] {
+		ex.fail("race", "data race", fmt.Sprintf("%s: access by thread %d is not ordered after a write by thread %d", what, t.id, m.wTid))
+	}
+	if write {
+		for u, c := range m.reads {
+			if u != t.id && c > t.vc[u] {
+				ex.fail("race", "data race", fmt.Sprintf("%s: write by thread %d is not ordered after a read by thread %d", what, t.id, u))
+			}
+		}
+		m.wTid, m.wClk = t.id, t.vc[t.id]
+		m.reads = nil
+	} else {
+		if m.reads == nil {
+			m.reads = map[int]int{}
+		}
+		m.reads[t.id] = t.vc[t.id]
+	}
+}
+
+func (ex *Exec) noteAccess(p *Value, write bool) {
+	if ex.threads == nil || p == nil {
+		return
+	}
+	ex.noteCellAccess(p, write, 0)
+}
+
+func (ex *Exec) noteCellAccess(p *Value, write bool, depth int) {
+	ts := ex.threads
+	m := ts.cells[p]
+	if m == nil {
+		m = &cellMeta{wTid: -1}
+		ts.cells[p] = m
+	}
+	ex.raceCheck(m, write, "memory cell")
+	if depth < 3 {
+		switch v := (*p).(type) {
+		case Struct:
+			for i := range v {
+				ex.noteCellAccess(&v[i], write, depth+1)
+			}
+		case Array:
+			if len(v) <= 16 {
+				for i := range v {
+					ex.noteCellAccess(&v[i], write, depth+1)
+				}
+			}
+		}
+	}
+}
+
+func (ex *Exec) noteMap(mp *Map, write bool) {
+	if ex.threads == nil || mp == nil {
+		return
+	}
+	ts := ex.threads
+	m := ts.maps[mp]
+	if m == nil {
+		m = &cellMeta{wTid: -1}
+		ts.maps[mp] = m
+	}
+	ex.raceCheck(m, write, "map")
+}
+
+func (ex *Exec) noteCell(v Value) {}
+
+func (ex *Exec) stamp() int64 {
+	if ex.threads == nil {
+		return 0
+	}
+	return int64(ex.threads.step)
+}
